@@ -115,7 +115,22 @@ func (_this *Session) GetBuilderGeneratorForType(dstType reflect.Type) BuilderGe
 		return storedBuilderGenerator.(BuilderGenerator)
 	}
 
+	completed := false
+	defer func() {
+		if !completed {
+			// No builder could be generated (unsupported type). Remove the
+			// placeholder and release anyone waiting on it so that later calls
+			// fail the same way instead of blocking forever.
+			builderGenerator = func(ctx *Context) Builder {
+				panic(fmt.Errorf("BUG: No builder available for type %v", dstType))
+			}
+			_this.builderGenerators.Delete(dstType)
+			wg.Done()
+		}
+	}()
+
 	builderGenerator = _this.defaultBuilderGeneratorForType(dstType)
+	completed = true
 	wg.Done()
 	_this.builderGenerators.Store(dstType, builderGenerator)
 	return builderGenerator
